@@ -41,6 +41,7 @@ fn main() {
         "fmt" => rt.block_on(format::fmt(seed, thorough)),
         "c09" => rt.block_on(chunking::c09(seed, thorough)),
         "c10" => rt.block_on(chunking::c10(seed, thorough)),
+        "hash" => rt.block_on(chunking::hash_suite(seed, thorough)),
         _ => {
             eprintln!("unknown suite {}", suite);
             std::process::exit(2);
